@@ -246,24 +246,6 @@ Proof.
 Qed.
 
 (* ---------- statements ---------- *)
-(* every import statement inside binds one-component keys and is not a __future__ import *)
-Fixpoint ui_stmt (x : stmt) : bool :=
-  let blk := fix blk (l : list stmt) : bool := match l with [] => true | y :: r => ui_stmt y && blk r end in
-  match x with
-  | SImport _ items => forallb u1_import_item items
-  | SImportFrom _ m items => not_future m && forallb s1_from_item items
-  | SDef _ _ _ _ _ body => blk body
-  | SClass _ _ _ _ _ body => blk body
-  | SFor _ _ _ b o => blk b && blk o
-  | SWhile _ _ b o => blk b && blk o
-  | SIf _ _ b o => blk b && blk o
-  | SWith _ _ b => blk b
-  | STry _ b hs o f =>
-      blk b && (fix hl (l : list handler) : bool := match l with [] => true | Handler _ _ _ hb :: r => blk hb && hl r end) hs
-      && blk o && blk f
-  | _ => true
-  end.
-Definition ui_block (l : list stmt) : bool := forallb ui_stmt l.
 Lemma ui_blk_fix : forall l,
   (fix blk (l : list stmt) : bool := match l with [] => true | y :: r => ui_stmt y && blk r end) l = ui_block l.
 Proof. reflexivity. Qed.
